@@ -207,7 +207,10 @@ func checkLayoutFamilyOf(rep *mc.Reporter, nIDs, nFiles int, deadline time.Time)
 		}
 		atomic.AddInt64(&nLayouts, 1)
 	}, func(i int, text string) {
-		if os.Getenv("VERIF_DEBUG") != "" { fmt.Println(text) }; rep.Report(mc.Violation{Symptom: "panic", Key: lays[i].name, Msg: lays[i].name + ": " + text})
+		if os.Getenv("VERIF_DEBUG") != "" {
+			fmt.Println(text)
+		}
+		rep.Report(mc.Violation{Symptom: "panic", Key: lays[i].name, Msg: lays[i].name + ": " + text})
 	})
 	if len(outcomes) < 5 {
 		mc.Fatal("layout family vacuous: %d outcomes", len(outcomes))
